@@ -365,7 +365,9 @@ func init() {
 		Assumptions: []string{"per-source outcome classes are represented by one behaviour each", "the method label of a certificate without responders at the OCSP-only entry point is not judged"},
 		Scenarios:   c12Scenarios,
 		MaxProcs:    2,
-		Alphabet:    func(mc.Tier) map[string]int { return map[string]int{"ocsp_classes": 4, "crl_classes": 3, "max_chain": 5, "invalid_chain_classes": len(firstRet(chainMods(3, purposeCS))) + 2} },
+		Alphabet: func(mc.Tier) map[string]int {
+			return map[string]int{"ocsp_classes": 4, "crl_classes": 3, "max_chain": 5, "invalid_chain_classes": len(firstRet(chainMods(3, purposeCS))) + 2}
+		},
 		Guards: func(s *mc.Stats, t mc.Tier) []string {
 			var w []string
 			need := []string{"completed", "validatecontext invalid-chain-error=true", "validatecontext invalid-chain-error=false", "OK/OCSP", "OK/OCSPFallbackCRL", "NonRevokable/Unknown", "OK/CRL"}
